@@ -265,6 +265,8 @@ def builtin(ex, st, fr, name, a, x, work):
         if v: set_state(ex, st, mf, v)
         else: clear_state(ex, st, mf)
         return 0
+    if name.startswith('_ZN3fmt') and 'vformat' in name and x['ty'].k == 'void':
+        S.add('fmt::vformat -> empty string (message formatting is never the subject)'); make_string(ex, st, a[0], []); return 0
     # ---------------- strtol / strtoll / strtoul: exact on the C string (symbolic bytes fork per shape: blanks, sign, digit count)
     if name in ('strtol', 'strtoll', 'strtoul', 'strtoull', '__isoc23_strtol', '__isoc23_strtoll', '__isoc23_strtoul'):
         S.add('strtol: exact decimal model, forks on the shape of symbolic bytes (blanks/sign/digit count)')
